@@ -207,7 +207,9 @@ def c12(tier):
     if q:
         pairs = [l for l in layouts if len(l) == 2]
         rnd.shuffle(pairs)
-        layouts = [l for l in layouts if len(l) != 2] + pairs[:40]
+        # always: "not" before identifiers that start with "in", the two-word operator next to identifiers and numbers
+        must = [(12, 13), (12, 15), (12, 0), (4, 0), (0, 4), (12, 13, 0), (0, 4, 13), (2, 5, 2), (10, 5, 10), (6, 0), (7, 11)]
+        layouts = [l for l in layouts if len(l) != 2] + [l for l in must if l not in layouts] + [l for l in pairs[:40] if l not in must]
     # the words "not" (12) and "in" (14) next to each other ARE the operator "not in": not a two-token layout
     layouts = [l for l in layouts if not any(a == 12 and b == 14 for a, b in zip(l, l[1:]))]
     for lay in layouts:
